@@ -82,6 +82,11 @@ def run_case(ctx, case):
             blind = excluded_by_design(spec[t][m['line']], g)
         if t == 'file' and m['how'] == 'alter' and spec['files'][m['file']]['kind'] == 'text':
             blind = excluded_by_design(spec['files'][m['file']]['lines'][m['line']], g)
+        # history: a normal run of the command leaves its outputs behind, THEN the command changes
+        try:
+            G.bare_run(g.workdir, g.env, names=[f['name'] for f in spec['files']])
+        except Exception:
+            pass
         res = G.run_script(ctx, g, mut=m['k'])
         rec.case({'case': case, 'mut': m}, nontrivial=True, cls=[('target=' + t,), ('how=' + m['how'],), ('blind=%d' % blind,)])
         rec.event('mutants:' + t)
